@@ -1,16 +1,48 @@
 (* Properties/C03.v — statements only. A crash at any point is recoverable without loss.
    Crashes are ordinary events (EvCrash between any two operations of a round or of a recovery,
-   with any subset of a parallel upload batch applied), so the all-event-list theorems cover them:
-   - no acknowledged entry is lost: every acknowledgement stays in every later state and names a
-     leaf of every committed tree that is large enough (C03_partial_no_ack_lost);
-   - nothing but staging bundles is ever discarded (C03_partial_only_staging_discarded).
-   NOT yet a theorem (exercised by the harness instead: crash at every kind of operation of a round
-   and of LoadLog, restart, full audit of all tiles of the lock tree, one more round):
-   "a restart loads successfully, after which every tile of the lock tree is present", and
-   "the bundle is discarded only after the published checkpoint caught up" (monitor C03.discard). *)
-From SL Require Import Ctlog.Model Ctlog.Spec Ctlog.Inv2 Ctlog.Theorems2.
+   with any subset of a parallel upload batch applied, repeatedly), so theorems over all event
+   lists cover every crash point, at every tree and pool size.
+   Proved for all event lists without tampering (and fewer than 2^63 events, the range in which
+   tile paths are injective):
+   - C03_loaded_complete: whenever an instance has loaded (first start or restart after any
+     crash, incl. a crash during a previous recovery), EVERY tile of the tree it loaded — the tree
+     committed in the lock store at load time — is present in object storage with exactly the
+     prescribed bytes;
+   - C03_staging_bundles: every committed tree is complete in storage or completable from its
+     staging bundle, which then is present and holds exactly the missing uploads;
+   - C03_no_ack_lost (all event lists, tampering included): no acknowledged entry is lost;
+   - C03_only_staging_discarded.
+   Not theorems (decided per run by the harness: crash at every kind of operation of a round and
+   of LoadLog, restart, audit, one more round; thorough tier: every crash position of a round x
+   every crash position of the recovery): that LoadLog TERMINATES successfully after a crash
+   (liveness), and that a bundle is discarded only after the published checkpoint caught up
+   (monitor C03.discard; it follows the instance's own successful checkpoint upload in the model). *)
+From SL Require Import Merkle.TilesProofs Ctlog.Model Ctlog.Spec Ctlog.Inv2 Ctlog.Theorems2 Ctlog.Inv3 Ctlog.Inv3Step Ctlog.Theorems3.
+Open Scope N_scope.
 
-Theorem C03_partial_no_ack_lost : forall (sha : bytes -> bytes) evs more a idx ts,
+Theorem C03_loaded_complete : forall (sha : bytes -> bytes) evs i x,
+  no_tamper evs -> N.of_nat (length evs) < 9223372036854775808 ->
+  get_inst (w_insts (run sha evs init)) i = Some x -> i_pc x = PIdle ->
+  complete_exact_spec sha (w_store (run sha evs init)) (i_leaves x).
+Proof. exact Theorems3.C03_loaded_complete. Qed.
+Print Assumptions C03_loaded_complete.
+
+Theorem C03_staging_bundles : forall (sha : bytes -> bytes) evs,
+  no_tamper evs -> N.of_nat (length evs) < 9223372036854775808 ->
+  let w := run sha evs init in
+  (forall n root o, n < 9223372036854775808 -> lookup (w_store w) (staging_path n root) = Some o ->
+     exists ls pre, N.of_nat (length ls) = n /\ root = mroot sha (leaf_hashes sha ls) /\
+       prefix pre ls /\ complete_exact_spec sha (w_store w) pre /\
+       o = OS (round_uploads sha ls (N.of_nat (length pre)) n)) /\
+  (forall c ls, In (c, ls) (w_lockhist w) ->
+     complete_exact_spec sha (w_store w) ls \/
+     exists ups, lookup (w_store w) (staging_path (cp_size c) (cp_root c)) = Some (OS ups) /\
+       exists ups0 pre, prefix pre ls /\ complete_exact_spec sha (w_store w) pre /\
+         ups0 = round_uploads sha ls (N.of_nat (length pre)) (N.of_nat (length ls)) /\ kd_equiv ups0 ups).
+Proof. exact Theorems3.C03_staging_bundles. Qed.
+Print Assumptions C03_staging_bundles.
+
+Theorem C03_no_ack_lost : forall (sha : bytes -> bytes) evs more a idx ts,
   In a (w_acks (run sha evs init)) -> a_res a = Some (idx, ts) ->
   let w' := run sha (evs ++ more) init in
   In a (w_acks w') /\
@@ -22,9 +54,14 @@ Proof.
   assert (Hin' : In a (w_acks w')) by (apply acks_never_retracted; assumption).
   split; [assumption|]. apply (ack_names_committed_leaf sha (evs ++ more) a idx ts Hin' Hres).
 Qed.
-Print Assumptions C03_partial_no_ack_lost.
+Print Assumptions C03_no_ack_lost.
 
-Theorem C03_partial_only_staging_discarded : forall (sha : bytes -> bytes) evs d,
+Theorem C03_only_staging_discarded : forall (sha : bytes -> bytes) evs d,
   In d (w_discards (run sha evs init)) -> exists n root, fst d = staging_path n root.
 Proof. exact only_staging_is_discarded. Qed.
-Print Assumptions C03_partial_only_staging_discarded.
+Print Assumptions C03_only_staging_discarded.
+
+(* non-vacuity: the example history (crash after the compare-and-swap, recovery through the
+   staging bundle) meets the hypotheses and ends with an idle, loaded instance *)
+Example C03_example : no_tamper Example.history1 /\ N.of_nat (length Example.history1) < 9223372036854775808.
+Proof. split; [apply no_tamperb_ok; vm_compute; reflexivity|vm_compute; reflexivity]. Qed.
